@@ -391,7 +391,7 @@ Proof.
       assert (Hs0 : sqrt (a * a + b * b) <> 0) by (apply Rgt_not_eq, sqrt_lt_R0; auto).
       set (s := sqrt (a * a + b * b)) in *. rewrite <- Hs. field. exact Hs0.
   - intros A B t0 da db EA EB HA HB.
-    pose proof (bd_atan2 b a Ha (fun t => B t) (fun t => A t) t0 db da EB EA HB HA) as H.
+    pose proof (bd_atan2 b a (or_introl Ha) (fun t => B t) (fun t => A t) t0 db da EB EA HB HA) as H.
     eapply is_derive_eq; [exact H|]. field. lra.
 Qed.
 
